@@ -215,7 +215,7 @@ export function* generate({ tier, seed }) {
   for (const [name, mod] of [['C18', C18], ['C20', C20], ['C16', C16]]) {
     for (const g of mod.generate({ tier, seed })) {
       if (rng() > keepTyped || g.spec.unresolvable) continue;
-      yield { gid: `C06-${n++}`, src: g.src, syntax: 'tsx', spec: { staticOnly: true, need: `typed:${name}`, env: { globals: { recordDC: { v: { k: 'fn', id: 'recordDC' }, log: false } }, modules: { other: { defineComponent: { k: 'fn', id: 'other.defineComponent' } }, './ext': { Ext: { k: 'sent' } } } } }, feature: `typed|${name}|${g.feature}`, variants: g.variants.slice(0, 1) };
+      yield { gid: `C06-${n++}`, src: g.src, syntax: 'tsx', spec: { staticOnly: true, need: `typed:${name}`, env: { globals: { recordDC: { v: { k: 'fn', id: 'recordDC' }, log: false } }, modules: { ...Object.fromEntries(['other', 'vue-class-component', 'vuetify/lib/util', 'vue2-helpers', 'vuex'].map((m) => [m, { defineComponent: { k: 'fn', id: 'other.defineComponent' } }])), './ext': { Ext: { k: 'sent' } } } } }, feature: `typed|${name}|${g.feature}`, variants: g.variants.slice(0, 1) };
     }
   }
   // 3. colliding user names
